@@ -773,6 +773,16 @@ func (g *Gen) ops(isScript bool) []Op {
 	n := 1 + g.R.Intn(g.Cfg.MaxOps)
 	var ops []Op
 	scratch := g.M.Clone()
+	scratch.Ctr.BeginTx()
+	g.M = scratch
+	// a call into a deployed contract needs an import, i.e. a transaction of its own
+	if g.Cfg.Families["contract"] > 0 && !isScript && g.R.Chance(0.2) {
+		a := g.acct()
+		name := ctNames[g.R.Intn(len(ctNames))]
+		if g.M.Ctr.get(a, name) != nil || g.R.Chance(0.1) {
+			return []Op{{K: "ct.call", A: a, S: name}}
+		}
+	}
 	for len(ops) < n {
 		o := g.op()
 		pr := &Pred{}
